@@ -177,17 +177,24 @@ def tfLoop (isT : Bool) (budget : Int) : Nat → Nat → Nat → Nat → Int →
 /-- `tf_select_table[LM][idx]`. -/
 def tfTable (LM idx : Nat) : Int := (tfSelectTable.getD LM []).getD idx 0
 
+/-- The tail of `tf_decode` (celt_decoder.c:478-488): `tf_select` is read only if a bit was reserved for it and the
+    two candidate rows of `tf_select_table` differ; then `tf_res[]` is mapped through the table. -/
+def tfFinish (cfg : CeltCfg) (isT rsv : Nat) (raw : List Nat) (changed : Nat) (c1 : Dec) (tr : List CEv) :
+    List Int × Nat × Dec × List CEv :=
+  if rsv ≠ 0 ∧ tfTable cfg.LM (4 * isT + 0 + changed) ≠ tfTable cfg.LM (4 * isT + 2 + changed) then
+    match decBitLogp c1 1 with
+    | (sel, c2) => (raw.map (fun r => tfTable cfg.LM (4 * isT + 2 * sel + r)), sel, c2, tr ++ [.bit 1 sel])
+  else (raw.map (fun r => tfTable cfg.LM (4 * isT + r)), 0, c1, tr)
+
+/-- `tf_select_rsv` (celt_decoder.c:463-464). -/
+def tfRsv (cfg : CeltCfg) (isT : Nat) (c : Dec) : Nat :=
+  if cfg.LM > 0 ∧ tell c + ((if isT ≠ 0 then 2 else 4 : Nat) : Int) + 1 ≤ ((c.storage * 8 : Nat) : Int) then 1 else 0
+
 /-- `tf_decode`: `(tf_res[] after the table, tf_select, ctx, trace)`. -/
 def tfDecode (cfg : CeltCfg) (isT : Nat) (c : Dec) : List Int × Nat × Dec × List CEv :=
-  let budget0 : Int := ((c.storage * 8 : Nat) : Int)
-  let logp0 : Nat := if isT ≠ 0 then 2 else 4
-  let rsv : Nat := if cfg.LM > 0 ∧ tell c + logp0 + 1 ≤ budget0 then 1 else 0
-  match tfLoop (isT ≠ 0) (budget0 - rsv) (cfg.end_ - cfg.start) logp0 0 0 (tell c) c with
-  | (raw, changed, c1, tr) =>
-    if rsv ≠ 0 ∧ tfTable cfg.LM (4 * isT + 0 + changed) ≠ tfTable cfg.LM (4 * isT + 2 + changed) then
-      match decBitLogp c1 1 with
-      | (sel, c2) => (raw.map (fun r => tfTable cfg.LM (4 * isT + 2 * sel + r)), sel, c2, tr ++ [.bit 1 sel])
-    else (raw.map (fun r => tfTable cfg.LM (4 * isT + r)), 0, c1, tr)
+  match tfLoop (isT ≠ 0) (((c.storage * 8 : Nat) : Int) - tfRsv cfg isT c) (cfg.end_ - cfg.start)
+          (if isT ≠ 0 then 2 else 4) 0 0 (tell c) c with
+  | (raw, changed, c1, tr) => tfFinish cfg isT (tfRsv cfg isT c) raw changed c1 tr
 
 /-! ### Spread, dynalloc, trim -/
 
